@@ -77,14 +77,26 @@ def strategy(tier):
         cnt = draw(gens.content(kinds=(0, 2, 2, 3, 5, 6)))
         case.update(gens.case_from(c, n, tp, cnt))
         if mode in ("rc1", "rc2") and draw(st.integers(0, 2)) == 0:
-            # near-live pacing: the application sleeps ~10-20 ms between submissions, so the bits actually spent on earlier pictures reach rate
-            # control before later pictures are rate-controlled (a flooded encoder never exercises that feedback in a short clip)
-            case["pat"] = [draw(st.sampled_from(["SSpr", "SSSSpr", "Spr"]))]
+            # live pacing: the application submits the next picture only when the encoder has gone quiet ('I') or sleeps ~10-20 ms between submissions,
+            # so the bits actually spent on earlier pictures reach rate control before later pictures are rate-controlled (a flooded encoder never
+            # exercises that feedback in a short clip)
+            case["pat"] = [draw(st.sampled_from(["prI", "prI", "SSpr", "SSSSpr"]))]
             if c["intra_period_length"] < 0:
                 c["intra_period_length"] = draw(st.sampled_from([7, 15]))
-            if "look_ahead_distance" not in c and mode == "rc1":
-                c["look_ahead_distance"] = draw(st.sampled_from([5, 16]))
-            case["frames"] = max(case["frames"], 3 * (c["intra_period_length"] + 1))
+            ip = c["intra_period_length"]
+            if mode == "rc1":
+                c["look_ahead_distance"] = draw(st.sampled_from([3, 5, ip]))
+                case["twopass"] = 0
+            # look_ahead_distance > intra period with a paced source divides by zero in rate control (listed C11 finding): excluded by construction
+            if c.get("look_ahead_distance", 0) > ip:
+                c["look_ahead_distance"] = ip
+            if draw(st.booleans()):
+                # a narrow window around a mid-range QP and a tight budget: the bounds are what limits the quantizer
+                mn = draw(st.sampled_from([20, 30, 40]))
+                c["min_qp_allowed"], c["max_qp_allowed"] = mn, mn + draw(st.integers(0, 2))
+                c["target_bit_rate"] = draw(st.sampled_from([100000, 300000, 500000]))
+                case["content"] = draw(gens.content(kinds=(3, 3, 2, 5)))
+            case["frames"] = max(case["frames"], 3 * (ip + 1))
         return case
     return s()
 
